@@ -48,10 +48,10 @@ ASSUMPTIONS = ['the workspace operations are uninterpreted state transformers he
 BOUNDED = {
     'C18': [{'name': 'evaluate-response-is-json', 'driver': 'json', 'args': [],
              'functions': ['Value::jsonify, Values::jsonify, FeelContext::jsonify, FeelNumber::jsonify (feel, feel-number)'],
-             'bound': '671 values (the TCK grid plus contexts with a key that needs escaping): {"data": <jsonify>} parses with serde_json and decodes to the value - strings, booleans, null, lists, contexts structurally, numbers at f64 precision, '
+             'bound': '1 428 values (the TCK grid - including a string for every control character U+0000..U+001F, U+007F, the quotation mark, the backslash and U+2028 - plus contexts with a key that needs escaping): {"data": <jsonify>} parses with serde_json and decodes to the value - strings, booleans, null, lists, contexts structurally, numbers at f64 precision, '
                       'dates / times / durations as JSON strings of their FEEL text'},
             {'name': 'tck-dto-round-trip', 'driver': 'tck', 'args': [],
              'functions': ['server/src/dto.rs (compiled into the driver from the repository file): TryFrom<&Value> for ValueDto, TryFrom<&ValueDto / &SimpleDto / &Vec<ComponentDto> / &ComponentDto / &ListDto / &Vec<ValueDto>> for WrappedValue', 'serde_json (real)'],
-             'bound': '650 values: 31 scalars of every TCK kind (strings with quotes, backslashes, control and non-ASCII characters; numbers; booleans; null; dates; times with and without offset; date-times; both duration kinds) and the lists / '
+             'bound': '1 428 values: 68 scalars of every TCK kind (strings with quotes, backslashes, control and non-ASCII characters; numbers; booleans; null; dates; times with and without offset; date-times; both duration kinds) and the lists / '
                       'contexts built from them to nesting depth 2 (empty, singleton, pairs, names with spaces): value -> DTO -> JSON text -> DTO -> value gives the value back (null messages aside)'}],
 }
